@@ -534,28 +534,7 @@ def _check_dispatch_loop(repo, r5):
 def _check_loader_and_echo(repo, r3, states):
     init = repo.func(F.SRV, "Service.__init__")
     # (a) state comes from read_service_meta when the service exists, else constant NOT_EXISTS
-    got_read, got_default = False, False
-    br = F.predicate_branches(init, "check_sid_folder_exist")
-    held, nheld = (br[0], br[1]) if br is not None else ([], [])
-    for s in held:
-        if isinstance(s, ast.Assign) and dotted(s.targets[0]) == "self.service_meta" and \
-                isinstance(s.value, ast.Call) and (dotted(s.value.func) or "").endswith("read_service_meta"):
-            got_read = True
-    for s in nheld:
-        if isinstance(s, ast.Assign) and dotted(s.targets[0]) == "self.service_meta" and isinstance(s.value, ast.Dict):
-            for k, v in zip(s.value.keys, s.value.values):
-                try:
-                    if repo.const_value(init.module, k) == "state" and repo.const_value(init.module, v) == 0:
-                        got_default = True
-                except Exception:
-                    pass
-    # no other store of the loaded state on either side
-    for side, want in ((held, "read"), (nheld, "default")):
-        for s in side:
-            if isinstance(s, ast.Assign) and dotted(s.targets[0]) == "self.service_meta":
-                is_read = isinstance(s.value, ast.Call) and (dotted(s.value.func) or "").endswith("read_service_meta")
-                if (want == "read") != is_read:
-                    got_read, got_default = (False, got_default) if want == "read" else (got_read, False)
+    got_read, got_default = F.loader_state_sources(repo, init, "check_sid_folder_exist")
     r3.require(got_read, init, "loader reads persisted state",
                "Service.__init__ no longer takes service_meta from read_service_meta when the service exists")
     r3.require(got_default, init, "loader default state",
